@@ -92,6 +92,88 @@ def module_info(path, entry_funcs, reset_funcs):
     return sorted(module_globals), sorted(reads & module_globals), sorted(resets), len(funcs), len(seen), sorted(consts)
 
 
+MUTCTOR = ("set", "list", "dict", "defaultdict", "OrderedDict", "Counter", "deque")
+MUTMETH = {"append", "extend", "update", "pop", "add", "remove", "clear", "insert", "setdefault", "sort", "discard", "popitem", "reverse",
+           "difference_update", "intersection_update", "symmetric_difference_update", "appendleft", "extendleft"}
+
+
+def _mutable_ctor(v):
+    if isinstance(v, (ast.List, ast.Dict, ast.Set, ast.ListComp, ast.DictComp, ast.SetComp)):
+        return True
+    return isinstance(v, ast.Call) and isinstance(v.func, ast.Name) and v.func.id in MUTCTOR
+
+
+def _mutation_targets(f):
+    """expressions mutated in place inside function `f` (subscript/attribute stores, augmented assignment, mutating methods, del)"""
+    for n in ast.walk(f):
+        if isinstance(n, (ast.Subscript, ast.Attribute)) and isinstance(n.ctx, (ast.Store, ast.Del)):
+            yield n.value
+        elif isinstance(n, ast.AugAssign):
+            yield n.target
+        elif isinstance(n, ast.Call) and isinstance(n.func, ast.Attribute) and n.func.attr in MUTMETH:
+            yield n.func.value
+
+
+def shared_state():
+    """state that outlives an object or a call, over the whole pipeline (not only module globals):
+    (a) class-level attributes bound to a mutable container: [name, rebound per instance in __init__, mutated in place through self/cls/Class];
+    (b) parameters with a mutable default value: [name, mutated in place in the function]"""
+    import warnings
+    cls_rows, def_rows = [], []
+    files = []
+    for d, _, fs in os.walk(REPO):
+        if any(x in d for x in ("/tests", "/.git", "/examples", "/scripts", "/bin")):
+            continue
+        files += [os.path.join(d, f) for f in fs if f.endswith(".py")]
+    for path in sorted(files):
+        with warnings.catch_warnings():
+            warnings.simplefilter("ignore", SyntaxWarning)
+            try:
+                tree = ast.parse(open(path).read())
+            except SyntaxError:
+                continue
+        rel = os.path.relpath(path, REPO)
+        for cls in [n for n in ast.walk(tree) if isinstance(n, ast.ClassDef)]:
+            cattrs = []
+            for n in cls.body:
+                if isinstance(n, (ast.Assign, ast.AnnAssign)) and n.value is not None and _mutable_ctor(n.value):
+                    cattrs += [t.id for t in (n.targets if isinstance(n, ast.Assign) else [n.target]) if isinstance(t, ast.Name)]
+            if not cattrs:
+                continue
+            rebound, mutated = set(), set()
+            for f in [n for n in ast.walk(cls) if isinstance(n, ast.FunctionDef)]:
+                if f.name == "__init__":
+                    for n in ast.walk(f):
+                        if isinstance(n, (ast.Assign, ast.AnnAssign)):
+                            for t in (n.targets if isinstance(n, ast.Assign) else [n.target]):
+                                if isinstance(t, ast.Attribute) and isinstance(t.value, ast.Name) and t.value.id == "self":
+                                    rebound.add(t.attr)
+                for tgt in _mutation_targets(f):
+                    chain = []
+                    while isinstance(tgt, (ast.Attribute, ast.Subscript)):
+                        if isinstance(tgt, ast.Attribute):
+                            chain.append(tgt.attr)
+                        tgt = tgt.value
+                    if isinstance(tgt, ast.Name) and chain and tgt.id in ("self", "cls", cls.name) and chain[-1] in cattrs:
+                        mutated.add(chain[-1])
+            for a in cattrs:
+                cls_rows.append(("%s:%s.%s" % (rel, cls.name, a), a in rebound, a in mutated))
+        for f in [n for n in ast.walk(tree) if isinstance(n, ast.FunctionDef)]:
+            pos = f.args.posonlyargs + f.args.args
+            pairs = list(zip(pos[len(pos) - len(f.args.defaults):], f.args.defaults)) + \
+                [(a, d) for a, d in zip(f.args.kwonlyargs, f.args.kw_defaults) if d is not None]
+            for a, dv in pairs:
+                if _mutable_ctor(dv):
+                    mut = False
+                    for tgt in _mutation_targets(f):
+                        while isinstance(tgt, (ast.Subscript, ast.Attribute)):
+                            tgt = tgt.value
+                        if isinstance(tgt, ast.Name) and tgt.id == a.arg:
+                            mut = True
+                    def_rows.append(("%s:%s.%s" % (rel, f.name, a.arg), mut))
+    return cls_rows, def_rows
+
+
 def lean_list(xs):
     return "[" + ", ".join('"%s"' % x for x in xs) + "]"
 
@@ -109,6 +191,14 @@ def generate():
         out.append("def %sReset : List String := %s" % (lname, lean_list(z)))
         out.append("def %sConst : List String := %s" % (lname, lean_list(k)))
         out.append("")
+    cls_rows, def_rows = shared_state()
+    b = lambda x: "true" if x else "false"
+    out.append("/-- class-level attributes bound to a mutable container: (file:Class.attr, rebound per instance in __init__, mutated in place) -/")
+    out.append("def classShared : List (String × Bool × Bool) := [" + ", ".join('("%s", %s, %s)' % (n, b(r), b(m)) for n, r, m in cls_rows) + "]")
+    out.append("/-- parameters whose default value is a mutable container: (file:function.parameter, mutated in place in the function) -/")
+    out.append("def mutableDefaults : List (String × Bool) := [" + ", ".join('("%s", %s)' % (n, b(m)) for n, m in def_rows) + "]")
+    out.append("")
+    summary["shared"] = {"class_attributes": len(cls_rows), "mutable_defaults": len(def_rows)}
     out.append("end GasolVerif.Generated")
     path = os.path.join(ROOT, "lean", "GasolVerif", "Generated", "Globals.lean")
     os.makedirs(os.path.dirname(path), exist_ok=True)
